@@ -146,15 +146,6 @@ def _has_blend(toks):
 
 
 # ---------------------------------------------------------------- executing with t2ref
-def _mk_scalars(kind, ks_fn):
-    """scalars callable for t2ref: vsindex -> list; ks_fn(vsindex) gives k."""
-    if kind is None:
-        return None
-    if kind == "ones":
-        return lambda vs: [1.0] * ks_fn(vs)
-    return lambda vs: [DYADIC[j % len(DYADIC)] for j in range(ks_fn(vs))]
-
-
 def run_detached(toks, cff2, limit, num_regions=None, blend_ks=None, scal=None):
     """Execute a program detached from a font (no subroutines).  Returns Result or str (fatal)."""
     kw = dict(cff2=cff2, default_width=-1, nominal_width=0, stack_limit=limit)
@@ -169,7 +160,10 @@ def run_detached(toks, cff2, limit, num_regions=None, blend_ks=None, scal=None):
                 kw["scalars"] = lambda vs: [DYADIC[j % len(DYADIC)] for j in range(m.blend_ks_peek)]
     elif num_regions is not None:
         kw["num_regions"] = num_regions
-        kw["scalars"] = _mk_scalars(scal, num_regions)
+        if scal == "ones":
+            kw["scalars"] = lambda vs: [1.0] * num_regions(vs)
+        elif scal is not None:
+            kw["scalars"] = lambda vs: [DYADIC[j % len(DYADIC)] for j in range(num_regions(vs))]
     m = _PeekMachine(**kw)
     try:
         return m.run(toks)
@@ -1310,6 +1304,9 @@ def _render_batch(ctx, items, cff2, blend, op="prog", widths=(333, 500)):
                 continue
             ho = r.hb_outline(it["gid"])
             tol = 1e-6 if (ref.n_fraction == 0 and not loc) else 2 * _ulp32(_maxabs(ho)) + (ref.n_fraction + 1) * 2.0 ** -16
+            if loc:
+                tol += ref.ops["blend"] * 1e-5      # HarfBuzz keeps region scalars in float32
+
             if not same_fill(ref.path, ho, tol)[0]:
                 ctx.inconclusive("oracle disagreement t2ref/HarfBuzz on %r" % _tok_json(it["orig"], 60))
                 it["bad"] = True
@@ -1822,8 +1819,6 @@ def drv_font(case, rnd, ctx):
     data1, mode = res
     _compare_fonts(ctx, "font:" + op, data0, data1, mode, rnd)
     _cur["keys"].add("font|%s|%s" % (op, rel[-28:]))
-    if op == "convert" and b"fvar" in data0[:400] and False:
-        pass
 
 
 def drv_fontcs(case, rnd, ctx):
